@@ -1,7 +1,7 @@
 (* CloudEventsProofs.v — what cloudevents.FormatterFilter.Process does, for every payload type, ID()/Data() behaviour,
    configuration, signer, predicate, format table and id source. *)
 From Coq Require Import List Bool Arith NArith Lia.
-From Verif Require Import Alist Base64 Json Formatters FormattersProofs CloudEvents.
+From Verif Require Import Alist Base64 Json JsonProofs Formatters FormattersProofs CloudEvents.
 Import ListNotations.
 Open Scope N_scope.
 
@@ -9,6 +9,49 @@ Lemma nonempty_true b : nonempty b = true <-> b <> [].
 Proof. destruct b; cbn; split; intros H; congruence. Qed.
 Lemma nonempty_false b : nonempty b = false <-> b = [].
 Proof. destruct b; cbn; split; intros H; congruence. Qed.
+
+(* ---------------------------------------------------------------- the encoded document *)
+Definition data_wf (dat : option jv) : Prop := match dat with Some v => wf v | None => True end.
+
+Lemma wf_mem_app a b : wf_mem (a ++ b) <-> wf_mem a /\ wf_mem b.
+Proof. induction a as [|[k x] a IH]; cbn [app wf_mem]; tauto. Qed.
+Lemma wf_opt_member k v : wf_mem (opt_member k v).
+Proof. unfold opt_member. destruct (nonempty v); cbn; tauto. Qed.
+Lemma wf_doc_jv d : data_wf (d_data d) -> wf (doc_jv d).
+Proof.
+  intros H. unfold doc_jv. apply wf_obj. repeat (apply wf_mem_app; split); try apply wf_opt_member; try (cbn; tauto).
+  unfold data_wf in H. destruct (d_data d); cbn; tauto.
+Qed.
+
+(* what is stored is a JSON document — compact for the json format, indented for the text format — that parses back to the
+   image of the document object *)
+Theorem ce_document_parses f d : data_wf (d_data d) -> parse_doc (enc f d) = Some (jimage (doc_jv d)).
+Proof.
+  intros H. unfold enc. destruct f; try (apply parse_doc_line; apply wf_doc_jv; exact H).
+  apply parse_doc_text. apply wf_doc_jv. exact H.
+Qed.
+Lemma enc_bytes f d : data_wf (d_data d) -> Base64.bytes (enc f d).
+Proof.
+  intros H. unfold Base64.bytes, enc, encode_line, encode_text, render, render_indent.
+  destruct f; apply Forall_app; (split; [apply render_g_bytes; apply wf_doc_jv; exact H|repeat constructor]).
+Qed.
+(* base64url-decoding the serialized member gives back exactly the encoded unsigned document *)
+Theorem serialized_decodes f d : data_wf (d_data d) -> Base64.decode (Base64.encode (enc f d)) = Some (enc f d).
+Proof. intros H. apply Base64.decode_encode. apply enc_bytes. exact H. Qed.
+
+(* the members of a document, and the signed document = the unsigned one plus serialized and serialized_hmac *)
+Definition members (v : jv) : list (bytes * jv) := match v with JObj l => l | _ => [] end.
+Theorem signed_doc_members d ser h : d_ser d = [] -> d_hmac d = [] -> ser <> [] -> h <> [] ->
+  members (doc_jv (with_sig d ser h)) = members (doc_jv d) ++ [(s_serialized, JStr ser); (s_serialized_hmac, JStr h)].
+Proof.
+  intros H1 H2 Hs Hh. unfold doc_jv, with_sig, members. cbn [d_id d_source d_type d_data d_ctype d_schema d_time d_ser d_hmac].
+  rewrite H1, H2. unfold opt_member at 3 4 7 8. cbn [nonempty].
+  destruct ser; [congruence|]. destruct h; [congruence|]. cbn [nonempty]. rewrite !app_nil_r. rewrite <- !app_assoc. reflexivity.
+Qed.
+Lemma encode_nonempty u : u <> [] -> Base64.encode u <> [].
+Proof. destruct u as [|a [|b [|c u]]]; intros H; [congruence| | |]; cbn; discriminate. Qed.
+Lemma enc_nonempty f d : enc f d <> [].
+Proof. unfold enc, encode_line, encode_text. destruct f; intros H; apply app_eq_nil in H; destruct H; discriminate. Qed.
 
 Section Proofs.
   Variable P : Type.
@@ -125,6 +168,40 @@ Section Proofs.
     - unfold finish in H. injection H as <- <- <-.
       exists (unsigned_doc cf ev id t dat), h. repeat split; try reflexivity. exact Hsg.
     - injection H as _ <- _. congruence.
+  Qed.
+
+  (* the full statement: signer configured, type listed, event not failed ==> the stored document is the unsigned document
+     plus serialized and serialized_hmac, serialized base64url-decodes to exactly the encoding of the unsigned document,
+     serialized_hmac is the signer's result on exactly those bytes (the one call the signer received), and both documents
+     parse back *)
+  Theorem signed_when_required cf (ev : event) fresh r oc calls sg :
+    process (Some cf) (Some ev) fresh = (r, oc, calls) -> oc <> OErr ->
+    c_signer cf = Some sg -> listed cf (ev_type ev) = true ->
+    (forall v, p_data (ev_payload ev) = DVal v -> wf v) ->
+    exists d h ser,
+      d_ser d = [] /\ d_hmac d = [] /\
+      sg (enc (c_format cf) d) = SigOk h /\ calls = [enc (c_format cf) d] /\
+      r = Some (formatted_as (fmt_key (c_format cf)) (enc (c_format cf) (with_sig d ser h)) ev) /\
+      ser <> [] /\ Base64.decode ser = Some (enc (c_format cf) d) /\
+      (h <> [] -> members (doc_jv (with_sig d ser h)) =
+                  members (doc_jv d) ++ [(s_serialized, JStr ser); (s_serialized_hmac, JStr h)]) /\
+      parse_doc (enc (c_format cf) d) = Some (jimage (doc_jv d)) /\
+      parse_doc (enc (c_format cf) (with_sig d ser h)) = Some (jimage (doc_jv (with_sig d ser h))).
+  Proof.
+    intros H Hoc Hs Hl Hwf. destruct (process_ok_inv cf ev fresh r oc calls H Hoc) as [id [t [dat [Hv [Hid [Ht Hd]]]]]].
+    rewrite (process_shape cf ev fresh id t dat Hv Hid Ht Hd) in H. cbv zeta in H.
+    unfold must_sign in H. rewrite Hs, Hl in H.
+    set (d := unsigned_doc cf ev id t dat) in *.
+    assert (Hdw : data_wf (d_data d)).
+    { subst d. cbn [unsigned_doc d_data]. unfold data_of in Hd. destruct (p_data (ev_payload ev)) as [|v|] eqn:E; try discriminate;
+        injection Hd as <-; cbn; [exact I|]. apply Hwf. reflexivity. }
+    destruct (sg (enc (c_format cf) d)) as [h|] eqn:Hsg; [|injection H as _ <- _; congruence].
+    unfold finish in H. injection H as <- <- <-.
+    exists d, h, (Base64.encode (enc (c_format cf) d)).
+    split; [reflexivity|]. split; [reflexivity|]. split; [exact Hsg|]. split; [reflexivity|]. split; [reflexivity|].
+    split; [apply encode_nonempty; apply enc_nonempty|]. split; [apply serialized_decodes; exact Hdw|].
+    split; [intros Hh; apply signed_doc_members; try reflexivity; [apply encode_nonempty; apply enc_nonempty|exact Hh]|].
+    split; apply ce_document_parses; [exact Hdw|]. exact Hdw.
   Qed.
 
   (* event types that are not listed (or no signer): the signer is never called and the stored document carries neither
